@@ -445,8 +445,12 @@ fn content_case(kind: &str, wrapper: usize, classes: &[Vec<u8>], ring: usize) ->
                         } else {
                             classes.iter().flat_map(|c| c.iter()).map(|&c| class_val(c, tt, call)).collect()
                         };
-                        let ok = sums_any_order(&terms);
-                        if !ok.iter().any(|&o| o == got || (o.is_nan() && got.is_nan())) {
+                        let mut ok = sums_any_order(&terms);
+                        // a sum accumulated in higher precision and rounded once is a sum too; anything
+                        // between the smallest and the largest candidate is accepted
+                        ok.push(terms.iter().map(|&x| x as f64).sum::<f64>() as f32);
+                        let (lo, hi) = ok.iter().fold((f32::INFINITY, f32::NEG_INFINITY), |(l, h), &o| (l.min(o), h.max(o)));
+                        if !(got >= lo && got <= hi) && !ok.iter().any(|&o| o == got || (o.is_nan() && got.is_nan())) {
                             return Some(("node.contents".into(), format!("{tag}: call {call}: output buffer {ch} sample {tt} = {got:e}, which no order of adding the input samples {terms:?} gives (candidates {ok:?})")));
                         }
                     }
@@ -512,7 +516,7 @@ fn main() {
         let _guard_scope = guard::scoped(&v.to_string());
         ctx.finish_replay(catch(|| replay(&v)).unwrap_or_else(|p| Some(format!("panic: {p}"))));
     }
-    ctx.rule("Sum / SumBuffers: input count 0..=3 x buffers per input 0..=3 (every combination) x output buffers 0..=3 x 11 wrapper types (plain, BoxedNode, BoxedNodeSend, Box<Box<T>>, &mut T, fn pointer, Box<dyn Fn>, Box<dyn FnMut>, nested GraphNode, nested GraphNode whose inner input/output nodes have different buffer counts, nested GraphNode with one more declared input port than connected inputs) x 3 consecutive calls, the wrapped node counting its invocations (exactly one per call, also with zero output buffers); Pass: 0 or 1 input likewise; Delay: per-channel ring lengths over {1,2,63,64,65,130}^(1..=2 channels) x input buffers 0..=3 x output buffers 0..=3 x 4 wrappers x 4 calls with coded initial ring contents; signal node: Box<dyn Signal<Frame=[f32;2]>> over an instrumented source, output buffers 0..=3, 3 calls, 64 pulls per call; sources write position-coded dyadic values (sums exact in f32), outputs start as a sentinel; oracle = per-node reference function; scale probes: Sum / SumBuffers with 4..=8, 16, 33, 100, 255, 256 and 257 inputs (patterned buffer counts), plain and nested-graph wrappers; buffer contents: every assignment of 9 finite content classes (zeros, values below f32::EPSILON, subnormals, tiny with one ordinary sample, ordinary, negative, 2^100-sized, negative zeros, tiny negative) to the buffers of 1..=3 Sum inputs and 1..=3 SumBuffers buffers (oracle: the output is what SOME order of f32 additions of ALL the terms gives), and of 11 classes (also infinities and NaN payloads) to Pass and Delay (rings 1, 17, 64, 65) inputs, compared bit for bit, x 3 wrappers x 2 calls; soak probes: 300 consecutive calls of delay nodes (4 ring-length sets) and of the signal node, 2100 calls of delay nodes with rings of 65535 and 65536 / 65537 samples (the write position wraps twice); distinct by configuration");
+    ctx.rule("Sum / SumBuffers: input count 0..=3 x buffers per input 0..=3 (every combination) x output buffers 0..=3 x 11 wrapper types (plain, BoxedNode, BoxedNodeSend, Box<Box<T>>, &mut T, fn pointer, Box<dyn Fn>, Box<dyn FnMut>, nested GraphNode, nested GraphNode whose inner input/output nodes have different buffer counts, nested GraphNode with one more declared input port than connected inputs) x 3 consecutive calls, the wrapped node counting its invocations (exactly one per call, also with zero output buffers); Pass: 0 or 1 input likewise; Delay: per-channel ring lengths over {1,2,63,64,65,130}^(1..=2 channels) x input buffers 0..=3 x output buffers 0..=3 x 4 wrappers x 4 calls with coded initial ring contents; signal node: Box<dyn Signal<Frame=[f32;2]>> over an instrumented source, output buffers 0..=3, 3 calls, 64 pulls per call; sources write position-coded dyadic values (sums exact in f32), outputs start as a sentinel; oracle = per-node reference function; scale probes: Sum / SumBuffers with 4..=8, 16, 33, 100, 255, 256 and 257 inputs (patterned buffer counts), plain and nested-graph wrappers; buffer contents: every assignment of 9 finite content classes (zeros, values below f32::EPSILON, subnormals, tiny with one ordinary sample, ordinary, negative, 2^100-sized, negative zeros, tiny negative) to the buffers of 1..=3 Sum inputs and 1..=3 SumBuffers buffers (oracle: the output lies between the smallest and largest value that SOME order of f32 additions of ALL the terms, or a wider accumulation rounded once, gives), and of 11 classes (also infinities and NaN payloads) to Pass and Delay (rings 1, 17, 64, 65) inputs, compared bit for bit, x 3 wrappers x 2 calls; soak probes: 300 consecutive calls of delay nodes (4 ring-length sets) and of the signal node, 2100 calls of delay nodes with rings of 65535 and 65536 / 65537 samples (the write position wraps twice); distinct by configuration");
     let mut evals = 0u64;
     for kind in [Kind::Sum, Kind::SumBuffers, Kind::Pass] {
         for n_in in 0..=(if kind == Kind::Pass { 1 } else { 3 }) {
